@@ -1,6 +1,6 @@
 (* Proofs/CommitProofs.v -- the commit machine keeps one linear chain of versions (C01, C08). *)
 From Coq Require Import ZArith List Bool Arith Lia.
-Require Import DS.Model.Commit.
+Require Import DS.Model.CommitBase DS.Gen.GenCommit DS.Model.Commit DS.Proofs.CommitGenProofs.
 Import ListNotations.
 Open Scope Z_scope.
 
@@ -163,7 +163,7 @@ Lemma lu_inj c w : Inv c w -> forall u v, In u (committed w) -> In v (committed 
 Proof. intro I. apply (chain_lu_inj _ _ _ (I_chain c w I)). Qed.
 
 Lemma stamp_eqb_lu a b : stamp_eqb a b = true -> m_lu a = m_lu b.
-Proof. unfold stamp_eqb. intro H. apply andb_true_iff in H. destruct H as [_ H]. apply Z.eqb_eq in H. exact H. Qed.
+Proof. intro H. apply stamp_eqb_true in H. apply H. Qed.
 
 (* ------------------------------------------------------------------ frame lemma: only one actor's state and the lock change *)
 Lemma inv_frame c w a s' lk :
@@ -291,7 +291,7 @@ Proof.
            rewrite (nthf_app _ _ (a_cur s)) by (apply Val; exact A3).
            split; [rewrite app_length; simpl; lia|]. split.
            ++ intro In. apply Val in In. lia.
-           ++ unfold new_meta. simpl. rewrite A1, !file_nthf. split; [reflexivity|lia].
+           ++ unfold new_meta. simpl. rewrite A1, !file_nthf. split; [reflexivity|apply gen_new_lu_gt].
       * rewrite upd_other by exact NE. apply ainv_ext; [apply I | exact Val].
     + intros x y NE Wx Wy.
       destruct (Nat.eq_dec x a) as [->|Nx], (Nat.eq_dec y a) as [->|Ny]; try contradiction;
@@ -607,7 +607,7 @@ Qed.
 
 (* ------------------------------------------------------------------ liveness: an idle committer can always run to success *)
 Lemma stamp_eqb_refl m : stamp_eqb m m = true.
-Proof. unfold stamp_eqb. rewrite !Z.eqb_refl. reflexivity. Qed.
+Proof. apply stamp_eqb_true. split; reflexivity. Qed.
 
 Definition commit_script (b : aid) (ptr : vid) (now : Z) : list event :=
   [ {| e_actor := b; e_kind := EBegin ptr |}; {| e_actor := b; e_kind := ELockTry true |};
@@ -655,6 +655,30 @@ Proof.
   stepsimp.
   eexists. split; [reflexivity|]. cbn [w_actors w_hist w_ptr]. rewrite upd_same. cbn [a_pc].
   repeat split; reflexivity.
+Qed.
+
+(* the script of can_commit is the base read followed by the success path whose protocol actions are, by
+   CommitGenProofs.model_path_*_regenerated, exactly the skeleton regenerated from MetadataManager.commit *)
+Lemma commit_script_kinds b ptr now :
+  map e_kind (commit_script b ptr now) = EBegin ptr :: success_events ptr now.
+Proof. reflexivity. Qed.
+
+Lemma success_events_actions casb v now : flat_map (actions_of casb) (success_events v now) = model_path casb.
+Proof. reflexivity. Qed.
+
+Lemma regenerated_skeleton_runs c w b (now : Z) :
+  a_pc (w_actors w b) = PIdle -> (lockkind c = GrantAll \/ w_lock w = None) ->
+  exists evs w',
+    flat_map (actions_of (cas c)) (map e_kind evs) = (if cas c then gen_commit_path_cas else gen_commit_path_plain)
+    /\ Forall (fun e => e_actor e = b) evs
+    /\ run_strict c w ({| e_actor := b; e_kind := EBegin (w_ptr w) |} :: evs) 0 = inl w'
+    /\ a_pc (w_actors w' b) = PDone Success
+    /\ w_ptr w' = length (w_files w).
+Proof.
+  intros PC LF. destruct (can_commit c w b now PC LF) as [w' [R [S [_ P]]]].
+  exists (tl (commit_script b (w_ptr w) now)), w'. split; [|split; [|split; [exact R|split; assumption]]].
+  - destruct (cas c); reflexivity.
+  - repeat constructor.
 Qed.
 
 Lemma run_L1 c w evs : L1 c w -> L1 c (run c w evs).
